@@ -302,8 +302,9 @@ func (e *Engine) Run(t *tape.Tape, keep bool) *sim.Result {
 				if !d.open {
 					continue
 				}
-				got, ok := srv.VerifText(d.path)
-				if !ok || got != d.text {
+				// a server that keeps no entry for the document holds the empty text
+				got, _ := srv.VerifText(d.path)
+				if got != d.text {
 					suffix := d.uri[strings.LastIndex(d.uri, "."):]
 					return &outcome{"text_mismatch", suffix + ":" + lastKind, fmt.Sprintf("%s: server copy of %s is %q, the editor holds %q", when, d.uri, clip(got), clip(d.text))}
 				}
